@@ -5,6 +5,7 @@ import (
 	"encoding/json"
 	"errors"
 	"fmt"
+	"github.com/hyperjumptech/grule-rule-engine/ast"
 	"strings"
 	"testing"
 	"time"
@@ -78,6 +79,9 @@ type c15Point struct {
 	// Expire: the context ends at this point because its deadline passes (Err() = DeadlineExceeded)
 	// instead of by an explicit cancel().
 	Expire bool `json:"ends_by_deadline,omitempty"`
+	// Nested: at this probe invocation (counted from 1; 0 = never) the fact method runs another knowledge base
+	// to its end on the same GruleEngine value with plain Execute, before the outer run goes on
+	Nested int `json:"nested_run_on_the_same_engine_at_probe,omitempty"`
 }
 
 type c15Result struct {
@@ -199,14 +203,21 @@ func c15Run(c *val.Case, prep *val.Prepared, pt c15Point) (*c15Result, error) {
 			}
 		}
 	}
+	eng := engine.NewGruleEngine()
+	nestedDone := false
 	probe.OnCall = func(name string, id int64, n int) {
+		if pt.Nested > 0 && n == pt.Nested && !nestedDone {
+			nestedDone = true
+			rec.Mute = true
+			c15NestedRun(eng)
+			rec.Mute = false
+		}
 		rec.Probe(name, id, n)
 		if pt.Kind == "probe" && n == pt.K {
 			markCancel()
 			cancel()
 		}
 	}
-	eng := engine.NewGruleEngine()
 	eng.MaxCycle = c.MaxCycle
 	eng.ReturnErrOnFailedRuleEvaluation = c.ErrOnFail
 	eng.Listeners = []engine.GruleEngineListener{rec}
@@ -226,6 +237,32 @@ func c15Run(c *val.Case, prep *val.Prepared, pt c15Point) (*c15Result, error) {
 	}
 	res.CtxErr = ctx.Err()
 	return res, nil
+}
+
+var c15InnerLib *ast.KnowledgeLibrary
+
+// c15NestedRun executes a small knowledge base of its own to quiescence on the given engine (plain Execute,
+// i.e. with a background context), the way a fact method may do from inside a rule action or condition.
+func c15NestedRun(eng *engine.GruleEngine) {
+	if c15InnerLib == nil {
+		lib, err := obs.Build("rule Inner1 salience 2 { when F.I64 < 3 then F.I64 = F.I64 + 1; }\nrule Inner2 { when F.I64 == 3 && F.I32 == 0 then F.I32 = 1; }\n")
+		if err != nil {
+			panic("harness: inner rule set: " + err.Error())
+		}
+		c15InnerLib = lib
+	}
+	kb, err := obs.Instance(c15InnerLib)
+	if err != nil {
+		panic("harness: inner instance: " + err.Error())
+	}
+	dc := ast.NewDataContext()
+	if err := dc.Add("F", &facts.Fact{}); err != nil {
+		panic("harness: " + err.Error())
+	}
+	saved := eng.MaxCycle
+	eng.MaxCycle = 20
+	_ = eng.Execute(dc, kb)
+	eng.MaxCycle = saved
 }
 
 func c15Check(c *val.Case, pt c15Point, r *c15Result) []string {
@@ -312,7 +349,7 @@ type c15Replay struct {
 }
 
 func TestC15(t *testing.T) {
-	col := stats.New("C15", "rule sets with counted probes in conditions and actions; an un-cancelled baseline run counts the engine's ctx.Err() calls n, the listener events m and the probe invocations p; cancellation points are then enumerated, not timed: (a) a counting context whose Err()/Done() flip at the k-th Err() call, k = 1..n+1 (this reaches every check-point the engine has: before the first cycle, between two evaluations, on entry of a rule evaluation, on entry of a rule execution, between cycles), (b) cancel() called from inside the j-th listener event and from inside the q-th probe invocation (in a condition or in an action), (c) a context cancelled before the call, (d) an expired deadline; every point of (a)-(c) also with a context that additionally carries a deadline one hour in the future (WithTimeout, a cancellable child of it, or the counting context reporting one), and every point of (a)-(b) also with a context that ends at that point because its deadline passes (Err() = DeadlineExceeded). All points in the thorough tier, up to 30 per case in quick. Oracle: the call returns an error matching the context's error (nil is tolerated only if nothing at all happened after the cancellation); the fact data at return equals the data captured at the cancellation point, except when the cancellation happened inside an action list, where it must equal the reference replay of a prefix of that rule's own actions; an already cancelled context produces no event. The ExecuteRuleEntry event is deliberately not counted as an action start (the engine emits it before the action's own context check). Non-trivial: cancellation landed after at least one firing and was reached. Distinct by rule text + state + point.",
+	col := stats.New("C15", "rule sets with counted probes in conditions and actions; an un-cancelled baseline run counts the engine's ctx.Err() calls n, the listener events m and the probe invocations p; cancellation points are then enumerated, not timed: (a) a counting context whose Err()/Done() flip at the k-th Err() call, k = 1..n+1 (this reaches every check-point the engine has: before the first cycle, between two evaluations, on entry of a rule evaluation, on entry of a rule execution, between cycles), (b) cancel() called from inside the j-th listener event and from inside the q-th probe invocation (in a condition or in an action), (c) a context cancelled before the call, (d) an expired deadline; every point of (a)-(c) also with a context that additionally carries a deadline one hour in the future (WithTimeout, a cancellable child of it, or the counting context reporting one), and every point of (a)-(b) also with a context that ends at that point because its deadline passes (Err() = DeadlineExceeded), and with another knowledge base run to its end on the same GruleEngine value from inside the first probe invocation. All points in the thorough tier, up to 30 per case in quick. Oracle: the call returns an error matching the context's error (nil is tolerated only if nothing at all happened after the cancellation); the fact data at return equals the data captured at the cancellation point, except when the cancellation happened inside an action list, where it must equal the reference replay of a prefix of that rule's own actions; an already cancelled context produces no event. The ExecuteRuleEntry event is deliberately not counted as an action start (the engine emits it before the action's own context check). Non-trivial: cancellation landed after at least one firing and was reached. Distinct by rule text + state + point.",
 		"physical timing is replaced by logical cancellation points; a cancellation that arrives between two check-points is represented by the next check-point")
 	defer col.Flush()
 	rc := fullRuleCfg()
@@ -362,6 +399,16 @@ func TestC15(t *testing.T) {
 				pts = append(pts, p)
 			}
 		}
+		// and the points of (a) and (b) once more with a nested run on the same engine value at the first probe
+		// invocation (the engine value holds no per-run state, so runs may nest or overlap)
+		if base.Probes >= 1 {
+			for _, p := range append([]c15Point{}, pts...) {
+				if !p.DL && !p.Expire && (p.Kind == "errcall" || p.Kind == "event" || p.Kind == "probe") {
+					p.Nested = 1
+					pts = append(pts, p)
+				}
+			}
+		}
 		if !stats.Thorough() && len(pts) > 30 {
 			exhaustiveAll = false
 			perm := rapid.Permutation(indexes(len(pts))).Draw(rt, "points")
@@ -392,7 +439,7 @@ func TestC15(t *testing.T) {
 				}
 			}
 			nt := r.Cancelled && firingsBefore >= 1
-			labels := append(featLabels(rs), "point:"+pt.Kind, fmt.Sprintf("reached:%v", r.Cancelled), fmt.Sprintf("future_deadline:%v", pt.DL), fmt.Sprintf("ends_by_deadline:%v", pt.Expire))
+			labels := append(featLabels(rs), "point:"+pt.Kind, fmt.Sprintf("reached:%v", r.Cancelled), fmt.Sprintf("future_deadline:%v", pt.DL), fmt.Sprintf("ends_by_deadline:%v", pt.Expire), fmt.Sprintf("nested_run:%v", pt.Nested > 0))
 			if r.InFiringOf != "" {
 				labels = append(labels, "cancelled_inside_action_list")
 			}
